@@ -129,9 +129,12 @@ package os
 // MkdirTemp creates the directory below the temp directory's path inside the mount findMount returned (KF-23
 // fixed). Assumed (stated with filepath.Join): a path built by joining a name onto a routed directory of a mount
 // source is routed to that source (a deeper mount shadowing the new name is not modelled).
+// The joined name really is a name: the pattern has no separator when the mount source is asked to create the
+// directory (KF-74 fixed: "x/../../data/evil" was created by the temp mount at another mount's path).
 //@ func (*VirtualOS).MkdirTemp
 //@ props C13
 //@ requires vosInv(osObj)
+//@ callpre[C13.mkdirtemp.name] Mkdir: !contains(pattern, "/")
 //@ func (*VirtualOS).Open
 //@ props C13
 //@ requires vosInv(osObj)
